@@ -7,6 +7,7 @@ Contains iteratiove solvers like GMRES and BiCGSTAB
 import torch as tn
 import datetime
 import numpy as np
+from torchtt import _verif
 
 def BiCGSTAB(Op, rhs, x0, eps=1e-6, nmax = 40):
     pass
@@ -74,12 +75,14 @@ def gmres_restart(LinOp, b, x0 , N, max_iterations, threshold, resets = 4):
     
     iters = 0
     converged = False
+    _verif.emit('gmres_begin', N=int(N), maxit=int(max_iterations), resets=int(resets))
     for r in range(resets):
         x0, flag, it = gmres(LinOp,b,x0, N, max_iterations,threshold)
         iters += it
         if flag:
             converged = True
             break
+    _verif.emit('gmres_end', cycles=int(r)+1 if resets > 0 else 0, converged=bool(converged))
     return x0, converged, iters
                  
 
@@ -103,6 +106,7 @@ def gmres( LinOp, b, x0, N, max_iterations, threshold):
     
     r_norm = tn.linalg.norm(r)
     if not r_norm>0:
+        _verif.emit('gmres_cycle', steps=0, converged=True, err=0.0, thr=float(threshold))
         return x0, True, 0
 
     Q = tn.zeros((N,max_iterations+1), dtype = b.dtype, device = b.device) 
@@ -158,6 +162,7 @@ def gmres( LinOp, b, x0, N, max_iterations, threshold):
     x = x0 + Q[:,:k+1] @ y     
     # for i in range(k+1):
     #   x = x0+Qs[i]*y[i]
+    _verif.emit('gmres_cycle', steps=int(k)+1, converged=bool(converged), err=float(error), thr=float(threshold))
     return x, converged, k
     
 
